@@ -37,3 +37,15 @@ contract(P + "_Property.__call__", requires=PROP_WF + " and is_obj(self.element)
 contract(P + "_Property.__eq__", requires=PROP_WF,
          returns="is_bool(result) and implies(not isinstance(other, _Property), result is False)",
          props=["C17"], bounded_only=True, note="element equality (Element.__eq__) is structural over vars(): outside the executor's subset for now")
+
+# C05 / Dev-3: the names a model requires = JSON names of required properties that declare no default
+PD = "obj_dict(self)"
+PJ = f"val_at({PD}, j)"
+QUAL = f"(truthy({PJ}.required) and is_np({PJ}.element.default))"
+SRC = f"(key_at({PD}, j) if {PJ}.source is None else {PJ}.source)"
+contract(P + "_PropertyDict.required",
+         requires=f"dict_wf({PD}) and forall(lambda j: isinstance({PJ}, _Property) and not attr_absent({PJ},'required') and not attr_absent({PJ},'element') and "
+                  f"is_obj({PJ}.element) and not attr_absent({PJ}.element,'default') and (is_str({PJ}.source) or is_none({PJ}.source)), len({PD}))",
+         returns=f"is_list(result) and forall(lambda q: exists(lambda j: {QUAL} and result[q] is {SRC}, len({PD})), len(result)) and "
+                 f"forall(lambda j: implies({QUAL}, exists(lambda q: result[q] is {SRC}, len(result))), len({PD}))",
+         result_kind="list", kinds={"prop": "_Property"}, props=["C05", "C01", "C03"])
